@@ -315,3 +315,113 @@ func ruleShortCircuitSkips(p *Prog, r *Report, pkgs map[string]bool, sm *summari
 	}
 	r.note("R-SC: %d call sites of effectful module functions examined", n)
 }
+
+// ruleStaleIndex: R-IDX.  An index map built from a list (M[key(e)] = e for
+// the elements e of L) goes stale when L grows later in the same function and
+// the new element is not entered into M: a second element with the same key
+// is then not found.
+func ruleStaleIndex(p *Prog, r *Report, pkgs map[string]bool) {
+	r.rule("R-IDX", "Index maps stay in step with the list they index: when a function fills a map from the elements of a list in one loop (M[k] = element or true) and, in a later loop that looks keys up in M, appends to that same list, the appending block also enters the new element into M. (Otherwise a key that occurs twice in the merged-in input is treated as new both times: duplicate objects instead of one merged object.)")
+	idxAudit := map[string]string{}
+	for _, row := range readTable("index_audit.tsv", 3) {
+		idxAudit[row[0]+"|"+row[1]] = row[2]
+	}
+	n := 0
+	for _, fn := range allModFuncs(p) {
+		if fn.Synthetic != "" || !pkgs[pkgOfFunc(fn)] {
+			continue
+		}
+		type index struct {
+			m    ssa.Value
+			list string // description of the ranged list
+			loop map[*ssa.BasicBlock]bool
+		}
+		var idx []index
+		for _, h := range fn.Blocks {
+			body := naturalLoopBody(h)
+			if body == nil {
+				continue
+			}
+			for _, b := range fn.Blocks {
+				if !body[b] {
+					continue
+				}
+				for _, in := range b.Instrs {
+					mu, ok := in.(*ssa.MapUpdate)
+					if !ok {
+						continue
+					}
+					// the key derives from an element of a list ranged over by this loop
+					for _, rt := range valueRoots(mu.Key) {
+						var elem *ssa.UnOp
+						switch x := rt.(type) {
+						case *ssa.UnOp:
+							if fa, ok := x.X.(*ssa.FieldAddr); ok {
+								if e, ok := fa.X.(*ssa.UnOp); ok {
+									elem = e
+								}
+							}
+						}
+						if elem == nil {
+							continue
+						}
+						if ia, ok := elem.X.(*ssa.IndexAddr); ok && body[elem.Block()] {
+							idx = append(idx, index{mu.Map, descValue(ia.X, 0), body})
+						}
+					}
+				}
+			}
+		}
+		for _, ix := range idx {
+			for _, b := range fn.Blocks {
+				if ix.loop[b] {
+					continue
+				}
+				for _, in := range b.Instrs {
+					c, ok := in.(*ssa.Call)
+					if !ok {
+						continue
+					}
+					if bi, ok := c.Common().Value.(*ssa.Builtin); !ok || bi.Name() != "append" {
+						continue
+					}
+					if descValue(c.Common().Args[0], 0) != ix.list {
+						continue
+					}
+					// inside a loop that looks up M
+					inLookupLoop := false
+					for _, h := range fn.Blocks {
+						body := naturalLoopBody(h)
+						if body == nil || !body[b] {
+							continue
+						}
+						for bb := range body {
+							for _, in2 := range bb.Instrs {
+								if lk, ok := in2.(*ssa.Lookup); ok && sameSlice(lk.X, ix.m) {
+									inLookupLoop = true
+								}
+							}
+						}
+					}
+					if !inLookupLoop {
+						continue
+					}
+					n++
+					updated := false
+					for _, in2 := range b.Instrs {
+						if mu, ok := in2.(*ssa.MapUpdate); ok && sameSlice(mu.Map, ix.m) {
+							updated = true
+						}
+					}
+					if why, ok := idxAudit[fnDisplay(fn)+"|"+ix.list]; ok && !updated {
+						r.ok("R-IDX", "index-updated|"+fnDisplay(fn)+"|"+ix.list, p.ipos(c), "audited: "+why)
+						continue
+					}
+					r.add("R-IDX", "index-updated|"+fnDisplay(fn)+"|"+ix.list, p.ipos(c), "the list grows and its index map is updated in the same block", updated,
+						"the index map built from "+ix.list+" is not updated when the list grows: an element with the same key arriving later is not found")
+				}
+			}
+		}
+	}
+	r.note("R-IDX: %d appends to indexed lists inside lookup loops", n)
+}
